@@ -280,17 +280,156 @@ def _ids(x):
     return None
 
 
-def expected(case, events):
+RAW_ATTRS = ["t", "x", "y", "z", "mass", "E", "px", "py", "pz", "pdg", "ID", "charge", "ncoll", "form_time", "xsecfac",
+             "proc_id_origin", "proc_type_origin", "t_last_coll", "pdg_mother1", "pdg_mother2", "status", "baryon_number",
+             "strangeness", "weight"]
+RAW_SLOT = dict(zip(RAW_ATTRS, [0, 1, 2, 3, 4, 5, 6, 7, 8, 9, 11, 12, 13, 14, 15, 16, 17, 18, 19, 20, 21, 22, 23, 24]))
+# the documented column order of the line formats (the file headers), not Particle.py's mapping table
+COLUMNS = {"Oscar2013": RAW_ATTRS[:12],
+           "Oscar2013Extended": RAW_ATTRS[:20] + ["baryon_number", "strangeness"],
+           "JETSCAPE": ["ID", "pdg", "status", "E", "px", "py", "pz"]}
+REAL_COLS = {"t", "x", "y", "z", "mass", "E", "px", "py", "pz", "form_time", "xsecfac", "t_last_coll", "weight"}
+
+
+def raw_of(spec):
+    """the attribute values a particle of this case has, from the case data alone ({attr: float}, nan = not given)"""
+    R = {a: float("nan") for a in RAW_ATTRS}
+    if spec["mode"] == "setters":
+        for k, v in spec["attrs"]:
+            R[k] = funhex(v) if isinstance(v, str) else float(v)
+        return R
+    cols = COLUMNS[spec["format"]]
+    for a, v in zip(cols, spec["values"]):
+        R[a] = float(v) if a in REAL_COLS else float(int(v))
+    if spec["format"] == "JETSCAPE":          # no charge column: the charge of the species (PDG numbering scheme)
+        from particle import PDGID
+        code = PDGID(int(R["pdg"]))
+        if code.is_valid and code.charge is not None:
+            R["charge"] = float(code.charge)
+    return R
+
+
+def raw_of_object(p):
+    """fallback when the case data are not at hand (objects handed in by another module): the raw storage slots"""
+    return {a: float(p.data_[RAW_SLOT[a]]) for a in RAW_ATTRS}
+
+
+def _fin(*xs):
+    return all(math.isfinite(x) for x in xs)
+
+
+def reference(acc, R):
+    """the quantity a filter's predicate is stated in, from the raw values by its definition:
+    ('val', v) | ('nan',) a needed input is not given / unphysical: undefined | ('raise',) the documented ValueError (|z| >= t) |
+    ('unphys',) |pz| > E: NaN or the documented ValueError | ('defer',) outside the domain in which the definition pins
+    the value (non-finite inputs, the regulated singular directions): whatever the accessor returns"""
+    with np.errstate(all="ignore"):
+        if acc in ("t", "x", "y", "z", "E", "charge", "ncoll", "status", "pdg"):
+            return ("nan",) if math.isnan(R[acc]) else ("val", R[acc])
+        if acc == "pT_abs":
+            px, py = R["px"], R["py"]
+            if math.isnan(px) or math.isnan(py):
+                return ("nan",)
+            return ("val", math.sqrt(px * px + py * py)) if _fin(px, py) else ("defer",)
+        if acc in ("mT", "rapidity"):
+            E, pz = R["E"], R["pz"]
+            if math.isnan(E) or math.isnan(pz):
+                return ("nan",)
+            if not _fin(E, pz) or E < 0:
+                return ("defer",)
+            if acc == "mT":
+                if abs(pz) > E:
+                    return ("unphys",)
+                return ("val", math.sqrt(E * E - pz * pz))
+            if abs(E - abs(pz)) <= 1.0000001e-9:
+                return ("defer",)
+            if abs(pz) > E:
+                return ("unphys",)
+            return ("val", 0.5 * math.log((E + pz) / (E - pz)))
+        if acc == "pseudorapidity":
+            px, py, pz = R["px"], R["py"], R["pz"]
+            if math.isnan(px) or math.isnan(py) or math.isnan(pz):
+                return ("nan",)
+            if not _fin(px, py, pz):
+                return ("defer",)
+            p = math.sqrt(px * px + py * py + pz * pz)
+            if p - abs(pz) <= 1.0000001e-9 or px * px + py * py <= 1e-12:
+                return ("defer",)
+            return ("val", 0.5 * math.log((p + pz) / (p - pz)))
+        if acc == "spacetime_rapidity":
+            t, z = R["t"], R["z"]
+            if math.isnan(t) or math.isnan(z):
+                return ("nan",)
+            if not (t > abs(z)):
+                return ("raise",)
+            if not _fin(t, z):
+                return ("defer",)
+            return ("val", 0.5 * math.log((t + z) / (t - z)))
+    raise KeyError(acc)
+
+
+class _Silent(Exception):
+    """the property does not say what happens on this input"""
+
+
+def expected(case, events, specs=None):
     """documented outcome as lists of particle objects, or None when the property is silent
-    (inadmissible arguments, an accessor that raises)"""
+    (inadmissible arguments, an accessor that raises by documentation).  The quantities come from the case data
+    (`specs`, default case['events']) through `reference`; the objects' own accessors are consulted only to take over
+    the last bits of a value that agrees with its definition (so that cut values lying exactly on a particle's quantity
+    stay exactly on it) and in the zones where the definitions do not pin a value"""
     name = case["filter"]
     args = [py_arg(a) for a in case["args"]]
+    specs = case.get("events") if specs is None else specs
+    raws = {}
+    if specs is not None and [len(e) for e in specs] == [len(e) for e in events] and any(len(e) for e in events):
+        for ev, sv in zip(events, specs):
+            for p, s in zip(ev, sv):
+                raws[id(p)] = raw_of(s)
 
-    def quantity(p, acc):
+    def accessor(p, acc):
         with warnings.catch_warnings():
             warnings.simplefilter("ignore")
             v = getattr(p, acc)
             return v() if callable(v) else v
+
+    def quantity(p, acc):
+        R = raws.get(id(p))
+        if R is None:
+            R = raws[id(p)] = raw_of_object(p)
+        ref = reference(acc, R)
+        if ref[0] == "nan":
+            return float("nan")
+        if ref[0] == "raise":
+            raise _Silent()
+        if ref[0] == "unphys":
+            try:
+                accessor(p, acc)
+            except ValueError:
+                raise _Silent()
+            except Exception:
+                pass
+            return float("nan")
+        if ref[0] == "defer":
+            try:
+                return accessor(p, acc)
+            except ValueError:
+                raise _Silent()
+        v = ref[1]
+        if acc in ("pT_abs", "mT", "rapidity", "pseudorapidity", "spacetime_rapidity"):
+            try:
+                w = float(accessor(p, acc))
+            except Exception:
+                return v
+            if acc in ("pT_abs", "mT"):       # lengths: through the squares (C08's form of the comparison)
+                sq = (R["px"] ** 2 + R["py"] ** 2) if acc == "pT_abs" else (R["E"] ** 2 - R["pz"] ** 2)
+                big = sq if acc == "pT_abs" else R["E"] ** 2
+                ok = math.isfinite(w) and w >= 0 and abs(w * w - sq) <= 3e-9 * sq + 1e-15 * big
+            else:
+                ok = math.isfinite(w) and abs(w - v) <= 1e-9 * max(1.0, abs(v))
+            if ok:
+                return w          # the accessor's own rounding of the defined value
+        return v
 
     def particle_level(pred):
         return [[p for p in ev if pred(p)] for ev in events]
@@ -348,7 +487,7 @@ def expected(case, events):
             acc = NOARG[name]
 
             def in_class(p):
-                raw = float(p.data_[9])
+                raw = quantity(p, "pdg")
                 if math.isnan(raw):
                     return False
                 code = PDGID(int(raw))
@@ -381,8 +520,8 @@ def expected(case, events):
                         tot = tot + e
                 return tot
             return event_level(lambda ev: etot(ev) >= thr)
-    except ValueError:
-        return None        # an accessor raised (unphysical kinematics): the property does not say
+    except _Silent:
+        return None        # the documented ValueError of an accessor (unphysical kinematics): the property does not say
     raise ValueError("no oracle for " + name)
 
 
@@ -404,13 +543,29 @@ def oracle(case):
     want = [[pid[id(p)] for p in ev] for ev in exp]
     desc = f"{case['filter']}({', '.join(repr(py_arg(a)) for a in case['args'])}) on {len(events)} event(s) " \
            f"of sizes {[len(e) for e in events]}"
+    # the process has a history (as in run_impl): the same filter was just applied to the charge-conjugate sample built from
+    # fresh objects, and the call itself is made twice on the same particle objects (fresh outer lists) - whatever the
+    # library keeps between calls or between objects must not change the answer
     try:
-        out = run_filter(case, [list(ev) for ev in events])
-    except Exception as e:
-        return f"{desc}: raises {type(e).__name__}: {e}; documented selection is {want}"
-    got = [[pid.get(id(p), -1) for p in ev] for ev in out]
-    if got != want:
-        return f"{desc}: returns particles {got} (by position in the input), documented selection is {want}"
+        mirror = build_events(case)
+        with warnings.catch_warnings():
+            warnings.simplefilter("ignore")
+            for ev in mirror:
+                for p in ev:
+                    v = p.pdg
+                    if v == v:
+                        p.pdg = -int(v)
+        run_filter(case, mirror)
+    except Exception:
+        pass
+    for again in ("", " [second call on the same particle objects]"):
+        try:
+            out = run_filter(case, [list(ev) for ev in events])
+        except Exception as e:
+            return f"{desc}: raises {type(e).__name__}: {e}; documented selection is {want}{again}"
+        got = [[pid.get(id(p), -1) for p in ev] for ev in out]
+        if got != want:
+            return f"{desc}: returns particles {got} (by position in the input), documented selection is {want}{again}"
     for ev in events:
         for p in ev:
             if not np.array_equal(p.data_, snaps[id(p)], equal_nan=True):
@@ -504,10 +659,15 @@ def _quantities(events_spec, acc):
 
 def gen_limit(rng, pool, nonneg):
     r = rng.random()
+    q = rng.random()
+    if q < 0.03:                                   # an infinite limit (a number; the same window as None on that side)
+        return A_num(float("inf") if nonneg or rng.random() < 0.5 else float("-inf"))
     if pool and r < 0.5:
         v = rng.choice(pool)                       # exactly on a boundary
         if nonneg:
             v = abs(v)
+        if q < 0.10 and isinstance(v, float):      # the same number as a numpy scalar (np.float64 is a float)
+            return {"t": "npfloat", "v": fhex(v)}
         return A_num(v)
     if r < 0.75:
         return A_num(rng.randint(0 if nonneg else -4, 5))
